@@ -6,6 +6,7 @@ import (
 	"fmt"
 	"image"
 	"image/color"
+	"math"
 	"strings"
 
 	"github.com/reactivego/ivg"
@@ -91,8 +92,35 @@ func (r *RNG) GradientSetupOpt(lazy bool) []Call {
 	if r.Chance(10) {
 		nStops = r.Intn(64)
 	}
+	if lazy && r.Chance(3) {
+		// the stop offsets wrap around into the six matrix registers (not for the pixel metamorphoses of
+		// C16, which must be able to tell matrix entries from stop offsets)
+		nStops = 59 + r.Intn(5)
+	}
+	if !lazy && nStops > 58 {
+		nStops = 58
+	}
 	var cs []Call
 	cs = append(cs, Call{Name: "csel", U8: cBase}, Call{Name: "nsel", U8: nBase})
+	matrix := func() {
+		for i := 6; i >= 1; i-- {
+			v := float32(r.Intn(200)-100) / 64
+			if r.Chance(30) {
+				v = float32(r.Intn(20)-10) / 640
+			}
+			if r.Chance(30) {
+				v = 0
+				if lazy && r.Bool() {
+					continue // rely on the number registers being zero after Reset
+				}
+			}
+			cs = append(cs, Call{Name: "nreg", Adj: uint8(i), F: fl(v)})
+		}
+	}
+	if nStops > 58 {
+		// write the matrix first: the last stops then overwrite it, and the gradient stays valid
+		matrix()
+	}
 	// mostly valid stops: strictly increasing offsets in [0,1]; a few deliberately invalid ones
 	denom := float32(maxInt(nStops-1, 1))
 	lo := float32(0)
@@ -119,18 +147,8 @@ func (r *RNG) GradientSetupOpt(lazy bool) []Call {
 		cs = append(cs, Call{Name: "creg", Adj: 0, Incr: true, Col: ivg.RGBAColor(c)}, Call{Name: "nreg", Adj: 0, Incr: true, F: fl(o)})
 	}
 	cs = append(cs, Call{Name: "nsel", U8: nBase})
-	for i := 6; i >= 1; i-- {
-		v := float32(r.Intn(200)-100) / 64
-		if r.Chance(30) {
-			v = float32(r.Intn(20)-10) / 640
-		}
-		if r.Chance(30) {
-			v = 0
-			if lazy && r.Bool() {
-				continue // rely on the number registers being zero after Reset
-			}
-		}
-		cs = append(cs, Call{Name: "nreg", Adj: uint8(i), F: fl(v)})
+	if nStops <= 58 {
+		matrix()
 	}
 	sel := uint8(r.Intn(64))
 	if r.Chance(90) {
@@ -332,6 +350,11 @@ func suiteC02(s *Shard, n int) {
 				}
 			}
 		}
+		if i%6 == 5 {
+			// metadata only, mostly valid: what is accepted here must be accepted by the specification parser
+			src = cat([]byte{0x89, 'I', 'V', 'G'}, s.R.MetadataBytes())
+			s.EmitRun(SpecCase(src))
+		}
 		line := DecCase(nil, src)
 		obs := s.EmitRun(line)
 		s.Sig("dec:" + obsSig(obs))
@@ -471,6 +494,12 @@ func suiteC08(s *Shard, n int) {
 				Call{Name: "A", F: fl(r.F32(), r.F32(), r.F32(), r.F32(), r.F32()), La: r.Bool(), Sw: r.Bool()},
 				Call{Name: "c", F: fl(r.F32(), r.F32(), r.F32(), r.F32(), r.F32(), r.F32())},
 				Call{Name: "Z"})
+			if r.Chance(25) {
+				// the exported resolution flag changes while the path is open: the path keeps the resolution
+				// it was started with
+				k := len(cs) - 1 - r.Intn(4)
+				cs = append(append(append([]Call{}, cs[:k]...), Call{Name: "hires", B: r.Bool()}), cs[k:]...)
+			}
 			if r.Chance(30) {
 				vb := ivg.ViewBox{MinX: r.F32(), MinY: r.F32(), MaxX: r.F32(), MaxY: r.F32()}
 				cs = append([]Call{{Name: "reset", VB: vb, Pal: ivg.DefaultPalette}}, cs...)
@@ -937,6 +966,8 @@ func suiteC13(s *Shard, n int) {
 	r := s.R
 	for i := 0; i < n; i++ {
 		src := cat([]byte{0x89, 'I', 'V', 'G'}, r.MetadataBytes())
+		// the metadata alone against the specification parser: any difference there is about C13
+		s.EmitRun(SpecCase(src))
 		if r.Chance(50) {
 			b, _ := r.Instruction(false)
 			src = append(src, b...)
@@ -1030,8 +1061,9 @@ func suiteC14(s *Shard, n int) {
 	for i := 0; i < n; i++ {
 		// a graphic that uses palette colours in registers, blends and initial CREG contents
 		cs := []Call{{Name: "reset", VB: ivg.DefaultViewBox, Pal: r.Palette()}}
+		pool := []uint8{uint8(r.Intn(64)), uint8(r.Intn(64)), uint8(r.Intn(64)), 0}
 		for k := 0; k < 4; k++ {
-			idx := uint8(r.Intn(64))
+			idx := pool[r.Intn(4)] // few indices: a register written for one path is read by another
 			switch r.Intn(3) {
 			case 0:
 				cs = append(cs, Call{Name: "creg", Col: ivg.PaletteIndexColor(idx)})
@@ -1052,7 +1084,16 @@ func suiteC14(s *Shard, n int) {
 		s.Sig("opts:" + fmt.Sprint(len(opts)) + obsSig(obs))
 		calls, _, _ := Decode(opts, src)
 		if len(calls) > 0 {
-			s.emitRen(image.Rect(0, 0, 24, 24), nil, calls)
+			if r.Bool() {
+				// the same Renderer decodes the graphic twice: the second Reset seeds the registers again
+				calls = append(append([]Call{}, calls...), calls...)
+			}
+			rect := image.Rect(0, 0, 24, 24)
+			s.emitRen(rect, nil, calls)
+			// "the result seeds palette-indexed colours and the initial colour registers": the reference machine
+			for _, f := range monitorVM(RenCase(rect, nil, calls), rect, calls) {
+				s.Fail("C14.seeds-registers/"+f.Clause, f.Case, f.Detail)
+			}
 		}
 		for _, f := range monitorC14(line, opts, src, cs[0].Pal) {
 			s.Fail(f.Clause, f.Case, f.Detail)
@@ -1132,6 +1173,42 @@ func monitorC14(line string, opts []DecOpt, src []byte, suggested [64]color.RGBA
 	return
 }
 
+// Retarget extends a renderer history, with probability pct, by a SetRasterizer over another
+// rectangle (fresh rasteriser) followed by more drawing on the same Renderer: either the last path
+// again (no Reset: registers, selectors and metadata persist) or the whole history again (second
+// Reset with the same metadata).  cs must end outside a path.
+func (r *RNG) Retarget(cs []Call, rect image.Rectangle, pct int) []Call {
+	if !r.Chance(pct) || len(cs) == 0 || cs[len(cs)-1].Name != "Z" {
+		return cs
+	}
+	var nr image.Rectangle
+	switch r.Intn(4) {
+	case 0: // same size, other origin
+		dx, dy := r.Intn(80)-40, r.Intn(80)-40
+		nr = rect.Add(image.Pt(dx, dy))
+	case 1: // other size, same origin
+		nr = image.Rect(rect.Min.X, rect.Min.Y, rect.Min.X+1+r.Intn(300), rect.Min.Y+1+r.Intn(300))
+	case 2: // same rectangle again
+		nr = rect
+	default:
+		nr = r.Rect()
+	}
+	out := append(append([]Call{}, cs...), Call{Name: "rast", Rect: nr})
+	if r.Chance(40) {
+		return append(out, cs...)
+	}
+	last := -1
+	for i, c := range cs {
+		if c.Name == "start" {
+			last = i
+		}
+	}
+	if last < 0 {
+		return out
+	}
+	return append(out, cs[last:]...)
+}
+
 // ---------- renderer suites: C04 C05 C06 C15 C17 C07 ----------
 
 func suiteC04(s *Shard, n int) {
@@ -1145,6 +1222,7 @@ func suiteC04(s *Shard, n int) {
 		}
 		rect := r.Rect()
 		smp := r.SamplePoints(rect)
+		cs = r.Retarget(cs, rect, 15)
 		s.emitRen(rect, smp, cs)
 		line := RenCase(rect, smp, cs)
 		for _, f := range monitorVM(line, rect, cs) {
@@ -1172,6 +1250,7 @@ func suiteC05(s *Shard, n int) {
 			cs = append(cs, Call{Name: "Z"})
 		}
 		rect := r.Rect()
+		cs = r.Retarget(cs, rect, 25)
 		s.emitRen(rect, nil, cs)
 		line := RenCase(rect, nil, cs)
 		for _, f := range monitorGeometry(line, rect, cs) {
@@ -1212,6 +1291,7 @@ func suiteC06(s *Shard, n int) {
 		}
 		cs = append(cs, Call{Name: "Z"})
 		rect := r.Rect()
+		cs = r.Retarget(cs, rect, 10)
 		s.emitRen(rect, nil, cs)
 		line := RenCase(rect, nil, cs)
 		for _, f := range monitorArcs(line, rect, cs) {
@@ -1252,6 +1332,7 @@ func suiteC15(s *Shard, n int) {
 				smp = append(smp, image.Pt((r.Intn(13)-4)*[]int{8, 4, 2, 1}[r.Intn(4)], 0))
 			}
 		}
+		cs = r.Retarget(cs, rect, 25)
 		obs, _ := s.emitRen(rect, smp, cs)
 		if k := strings.Index(obs, " G"); k >= 0 && k+8 < len(obs) {
 			s.Sig("grad:" + obs[k+1:k+7] + fmt.Sprint(grid, strings.Contains(obs, "0000.0000.0000.0000")))
@@ -1297,6 +1378,10 @@ func suiteC17(s *Shard, n int) {
 			// Encoder: history A (any), then reset + B; compare with fresh reset + B
 			a := r.Program(ProgOpts{Wild: true, Arcs: true, Reset: 2, MaxPaths: 2, MaxRun: 4, Histories: true, Malformed: 10, OpenEnd: 40})
 			b := r.Program(ProgOpts{Wild: r.Bool(), Arcs: true, Reset: 1, MaxPaths: 3, Histories: r.Bool()})
+			if r.Chance(30) {
+				// read the selectors straight after the Reset
+				b = append([]Call{b[0], {Name: "rc"}, {Name: "rn"}}, b[1:]...)
+			}
 			ab := append(append([]Call{}, a...), b...)
 			lineAB := EncCase(ab)
 			obsAB := s.EmitRun(lineAB)
@@ -1304,6 +1389,11 @@ func suiteC17(s *Shard, n int) {
 			s.Sig("encAB:" + progSig(ab))
 			if lastTok(obsAB) != lastTok(obsB) {
 				s.Fail("C17.encoder-reset-forgets", lineAB, "bytes after A;Reset;B differ from fresh Reset;B")
+			}
+			// every observation made during B (selector and LOD reads, intermediate Bytes) as well
+			fAB, fB := strings.Fields(obsAB), strings.Fields(obsB)
+			if len(fAB) < len(fB) || strings.Join(fAB[len(fAB)-len(fB):], " ") != strings.Join(fB, " ") {
+				s.Fail("C17.encoder-reset-forgets", lineAB, "observations (CSel/NSel/LOD/Bytes) during B after A;Reset differ from those of a fresh Encoder")
 			}
 			if RunEnc(ab) != obsAB {
 				s.Fail("C17.deterministic", lineAB, "same calls, different output")
@@ -1460,7 +1550,22 @@ func monitorC07(line string, ops []GenOp, s *Shard) (fails []Failure) {
 	var z1 render.Renderer
 	z1.SetRasterizer(rec1, rect)
 	var sel1 [][2]uint8
-	errs1, p1 := runGenInto(&z1, ops, &sel1)
+	// "up to quantisation": a NaN whose payload sits in the two bits the 4-byte real form drops is an
+	// infinity in the format (C08: "NaN stays non-finite"); the direct pipeline gets what the format holds
+	ops1 := make([]GenOp, len(ops))
+	copy(ops1, ops)
+	for i, o := range ops1 {
+		if o.Kind == "call" && (o.Call.Name == "lod" || o.Call.Name == "nreg") {
+			f := append([]float32(nil), o.Call.F...)
+			for k, v := range f {
+				if t := bits(math.Float32bits(v) &^ 3); v != v && t == t {
+					f[k] = t
+				}
+			}
+			ops1[i].Call.F = f
+		}
+	}
+	errs1, p1 := runGenInto(&z1, ops1, &sel1)
 	// pipeline 2: Generator -> Encoder -> Decoder -> Renderer
 	var e encode.Encoder
 	e.HighResolutionCoordinates = true
